@@ -92,6 +92,11 @@ func (x *Exec) exec(fr *frame, ins ssa.Instruction) {
 		fr.defers = append(fr.defers, deferred{fn: fn, args: args, call: &ins.Call})
 	case *ssa.RunDefers:
 		x.runDefers(fr)
+		if p := fr.panicking; p != nil {
+			// a deferred call panicked during a normal return: the panic propagates (remaining defers run in runFrame)
+			fr.panicking = nil
+			panic(p)
+		}
 	case *ssa.Go:
 		// sequentialised: the goroutine body runs to completion at the spawn point
 		fn, args := x.prepareCall(fr, &ins.Call)
@@ -745,6 +750,7 @@ type rangeIter struct {
 	order []int
 	pos   int
 	s     Str
+	keys  []Value // snapshot taken when the loop starts (entries deleted during the loop are skipped)
 }
 
 func (x *Exec) rangeInit(v Value) Value {
@@ -762,6 +768,9 @@ func (x *Exec) rangeInit(v Value) Value {
 			choice = int(x.concretizeChoice(len(perms), "map iteration order"))
 		}
 		it.order = perms[choice]
+		if t != nil {
+			it.keys = append(it.keys, t.Keys...)
+		}
 		return it
 	case Str:
 		if t.Sym {
@@ -835,7 +844,24 @@ func (x *Exec) rangeNext(fr *frame, ins *ssa.Next) Value {
 		mt := ins.Iter.(*ssa.Range).X.Type().Underlying().(*types.Map)
 		return Tuple{c.False(), x.zero(mt.Key()), x.zero(mt.Elem())}
 	}
-	i := it.order[it.pos]
-	it.pos++
-	return Tuple{c.True(), it.m.Keys[i], it.m.Vals[i]}
+	for it.pos < len(it.order) {
+		if len(it.m.Keys) == len(it.keys) {
+			// map not modified since the loop started
+			i := it.order[it.pos]
+			it.pos++
+			return Tuple{c.True(), it.m.Keys[i], it.m.Vals[i]}
+		}
+		k := it.keys[it.order[it.pos]]
+		it.pos++
+		// still present? (only identity-comparable keys may be deleted during iteration in the code we run)
+		for j, mk := range it.m.Keys {
+			if eq := x.valEq(mk, k); eq.IsTrue() {
+				return Tuple{c.True(), mk, it.m.Vals[j]}
+			} else if !eq.IsConst() {
+				x.unsupported("range over a map with symbolic keys that is modified during the loop")
+			}
+		}
+	}
+	mt := ins.Iter.(*ssa.Range).X.Type().Underlying().(*types.Map)
+	return Tuple{c.False(), x.zero(mt.Key()), x.zero(mt.Elem())}
 }
